@@ -8,7 +8,7 @@ from ufl import Coefficient, FunctionSpace, Mesh, SpatialCoordinate, TestFunctio
 import ffcx.compiler
 import ffcx.options
 
-from .. import cjit, corpus, kernels, lean, numeric, pipeline
+from .. import cjit, corpus, ir_checks, kernels, lean, numeric, pipeline
 
 _GD = {"quadrilateral": 2, "hexahedron": 3}
 
@@ -112,6 +112,12 @@ def run(chk):
     chk.trusted += ["harness/oracle.py", "tolerance clause: the bound checked is |ΔA| ≤ 64·(rtol+atol)·max|A| (a first-order bound for multilinear forms with ≤ 64 table factors per entry; floating point)"]
     chk.lean("FfcxProofs.C10", ["Ffcx.Quad.sum_factorization_identity", "Ffcx.Quad.sum_factorization_identity3", "Ffcx.Quad.diagonal_of_outer",
                                 "Ffcx.Quad.clamp_bound_real", "Ffcx.Quad.flat_pair_bijective"])
+    chk.lean(ir_checks.IR_MODULE, ir_checks.TABLE_THEOREMS, extra_files=ir_checks.IR_FILES)
+    # table classification / compression / access vs the Lean model under swept tolerances
+    with lean.Driver("driver_ir") as d:
+        t_ents = [e for e in corpus.fixed() if e.name in ("laplace_coef_tri_p2", "stokes_mixed", "int_facet_tet", "nonaffine_quad", "n1curl_tet", "prism")]
+        for rt, at in ((1e-6, 1e-9), (1e-3, 1e-5), (0.0, 0.0), (1e-12, 1e-14)):
+            ir_checks.check_tables(chk, d, t_ents, rt, at)
     tp = tp_entries()
     if chk.tier == "quick":
         tp = [e for e in tp if e.name in ("tp_laplace_quadrilateral_2", "tp_coef_quadrilateral_2", "tp_rhs_quadrilateral_3",
